@@ -181,6 +181,10 @@ harness = []
 for op, (valued, noabort) in OPS.items():
     f = op + "_func"
     valued = [d for d in valued if d in registry and d not in SKIP]
+    if not os.environ.get("C31_ALL"):
+        # UNDECIDED, not claimed (minisat, kissat and z3 gave no answer in 5-10 minutes: two multiplier / floating-point
+        # adder circuits whose inputs are only known equal through the invariant): every PROD value, SUM on floating point
+        valued = [d for d in valued if not (op == "prod" or (op == "sum" and d in FP))]
     w("\n/* ================= MPI_%s ================= */" % op.upper())
     handled = [d for d in OPS[op][0] if d in registry] + noabort
     w("#define SUPPORTED_%s(p) (%s)" % (op, " || ".join("(p) == &smpi_MPI_%s" % d for d in handled)))
